@@ -6,6 +6,7 @@ package drive
 
 import (
 	"bytes"
+	"context"
 	"fmt"
 	"io"
 	"net/http"
@@ -15,6 +16,7 @@ import (
 	"time"
 
 	"github.com/gorilla/mux"
+	huskyotlp "github.com/honeycombio/husky/otlp"
 	"github.com/honeycombio/refinery/config"
 	"github.com/honeycombio/refinery/logger"
 	"github.com/honeycombio/refinery/metrics"
@@ -248,6 +250,16 @@ func (e *r2Env) Post(kind, dataset, contentType, apiKey, userAgent string, hdr m
 		e.Router.VerifC20Batch(w, req)
 	}
 	return w.Code, w.Body.Bytes()
+}
+
+// PostOTLPMsgp hands msgpack attribute maps to the router the way the OTLP handlers do after husky's
+// translation (processOTLPRequestBatchMsgp).
+func (e *r2Env) PostOTLPMsgp(dataset, apiKey, userAgent string, attrs [][]byte, times []time.Time, rates []int32) error {
+	b := huskyotlp.BatchMsgp{Dataset: dataset}
+	for i := range attrs {
+		b.Events = append(b.Events, huskyotlp.EventMsgp{Attributes: attrs[i], Timestamp: times[i], SampleRate: rates[i]})
+	}
+	return e.Router.VerifC20OTLPBatchMsgp(context.Background(), []huskyotlp.BatchMsgp{b}, apiKey, userAgent)
 }
 
 // Finish flushes both transmissions (Stop sends every pending batch and waits) and returns what the
